@@ -394,6 +394,100 @@ def rule_f_schedule_consumed_once(ctx, units):
     return n
 
 
+PLL = "stir::PoissonLogLikelihoodWithLinearModelForMeanAndProjData"
+
+
+def rule_g_all_tof_bins(ctx, pll_fns, dist_fns):
+    """Every TOF bin of the data is processed once: (1) the objective function hands the distributable layer a TOF range (-F, +F)
+    (or 0..0 for a non-TOF sensitivity) with one member F; (2) F is re-derived from the data - F = proj_data.get_max_tof_pos_num() - on
+    every path of the set-up function, never kept from an earlier set-up; (3) distributable_computation runs its TOF loop from the
+    lower to the upper bound it is handed in steps of one."""
+    n = 0
+    fields = set()
+    seen = set()
+    for f in pll_fns:
+        if f.body is None or f.is_dependent or f.cls != PLL or (f.file, f.line) in seen:
+            continue
+        def tof_slots(c):
+            # the two int parameters that follow the caching-information parameter of the distributable_* interface
+            ps, depth, cur = [], 0, ""
+            for ch in c.callee_info.get("sig") or "":
+                if ch == "," and depth == 0:
+                    ps.append(cur.strip())
+                    cur = ""
+                    continue
+                depth += ch in "<(" 
+                depth -= ch in ">)"
+                cur += ch
+            ps.append(cur.strip())
+            for j, t in enumerate(ps):
+                if "DistributedCachingInformation" in t and j + 2 < len(ps) + 0 and ps[j + 1] == "int" and ps[j + 2] == "int" and j + 2 < len(c.call_args()):
+                    return j + 1, j + 2
+            return None
+
+        calls = [c for c in f.calls() if (c.callee or "").startswith("stir::distributable_") and tof_slots(c)]
+        if not calls:
+            continue
+        seen.add((f.file, f.line))
+        for i, c in enumerate(calls):
+            a_, b_ = tof_slots(c)
+            lo, hi = key(c.call_args()[a_].strip()), key(c.call_args()[b_].strip())
+            m = re.fullmatch(r"\(\?: (.+) \(- (this\.\w+)\) 0\)", lo)
+            m2 = re.fullmatch(r"\(\?: (.+) (this\.\w+) 0\)", hi)
+            if m and m2 and m.group(1) == m2.group(1) and m.group(2) == m2.group(2):
+                fld, ok = m.group(2), True
+            else:
+                m = re.fullmatch(r"\(- (this\.\w+)\)", lo)
+                fld = m.group(1) if m else None
+                ok = fld is not None and hi == fld
+            if ok:
+                fields.add(fld)
+            ctx.ob("C06.g-all-tof-bins", f.qn, "%s@%d" % (c.callee.split("::")[-1], i), ok, c.where(), "TOF range handed on is (-%s, +%s)" % (fld, fld) if ok else "the TOF range handed to the distributable layer is (%s, %s): not the symmetric range of one member" % (key(c.call_args()[a_], True), key(c.call_args()[b_], True)))
+            n += 1
+    if len(fields) != 1:
+        ctx.unrec(PLL, "expected one member bounding the TOF range, found %s" % sorted(fields))
+        return n
+    fld = fields.pop()
+    # (2) the set-up function: the one that derives the member from the data
+    setups = []
+    for f in pll_fns:
+        if f.body is None or f.is_dependent or f.cls != PLL or not f.cfg_raw:
+            continue
+        cand = [m for m in f.walk() if m.k == "BinaryOperator" and m.op == "=" and key(m.c[0].strip()) == fld]
+        if not cand:
+            continue
+        defs = LocalDefs(f)
+        sub = {d: defs.single_def(d) for d in defs.decl}
+        asg = [m for m in cand if "get_max_tof_pos_num()" in key(m.c[1].strip(), False, sub)]
+        if asg and (f.file, f.line) not in {(g.file, g.line) for g, _a, _s in setups}:
+            setups.append((f, asg, sub))
+    if len(setups) != 1:
+        ctx.ob("C06.g-all-tof-bins", PLL, "tof-range-from-data", False, "", "no set-up function derives %s from the data's get_max_tof_pos_num()" % fld if not setups else "several functions derive %s from the data" % fld)
+        return n + 1
+    f, asg, sub = setups[0]
+    cfg = CFG(f)
+    ids = {a.i for a in asg}
+    from_data = all(re.fullmatch(r"\*?this\.proj_data_sptr\.get_max_tof_pos_num\(\)|this\.proj_data_sptr->get_max_tof_pos_num\(\)", key(a.c[1].strip(), False, sub)) for a in asg)
+    w = cfg.paths_avoiding([(cfg.entry, -1)], lambda x: x.i in ids)
+    ok = w is None and from_data
+    ctx.ob("C06.g-all-tof-bins", f.qn, "tof-range-from-data", ok, asg[0].where(), "%s = the data's maximum TOF index on every path of the set-up" % fld if ok else ("a path through the set-up keeps the previous %s (blocks %s): after set-up for other data, TOF bins beyond the old range are never processed" % (fld, w) if w is not None else "%s is not the data's get_max_tof_pos_num()" % fld))
+    n += 1
+    # (3) the TOF loop of distributable_computation
+    for d in dist_fns:
+        if d.qn != "stir::distributable_computation" or d.body is None:
+            continue
+        ints = [pp for pp in d.params if pp["t"].replace("const ", "").strip() == "int"]
+        if len(ints) < 2:
+            continue
+        lo, hi = "v%d" % ints[-2]["d"], "v%d" % ints[-1]["d"]
+        loops = [describe(lp, names=False) for lp in d.walk() if lp.k == "ForStmt"]
+        ok = any(L and L.get("init") == lo and L.get("upper") == hi and L.get("step") in ("1", 1) and L.get("cmp", "<=") == "<=" for L in loops)
+        ctx.ob("C06.g-all-tof-bins", d.qn, "tof-loop", ok, d.where(), "for (t = min_timing_pos_num; t <= max_timing_pos_num; ++t)" if ok else "no loop runs over min_timing_pos_num..max_timing_pos_num in steps of one: %s" % [(L.get("init"), L.get("upper"), L.get("step")) for L in loops if L][:6])
+        n += 1
+        break
+    return n
+
+
 def run(ctx):
     ctx.explanation = (
         "Decides: (a) the subset enumeration lists each is_basic (view,segment) of the residue class view = min_view+subset_num mod "
@@ -442,6 +536,16 @@ def run(ctx):
         return
     rule_f_schedule_consumed_once(ctx, sunits)
     ctx.require_count("C06.f-schedule-consulted-once", 3)
+    greqs = [
+        Request("src/recon_buildblock/PoissonLogLikelihoodWithLinearModelForMeanAndProjData.cxx", fn=[PLL + "::.*"], rec=[PLL]),
+        Request("src/recon_buildblock/distributable.cxx", fn=["stir::distributable_computation"]),
+    ]
+    ctx.ex.prefetch(greqs)
+    gu = [ctx.ex.get(r) for r in greqs]
+    if any(x is None for x in gu):
+        return
+    rule_g_all_tof_bins(ctx, gu[0].functions, gu[1].functions)
+    ctx.require_count("C06.g-all-tof-bins", 5)
     ctx.require_count("C06.a-residue-class-enumeration", 3)
     ctx.require_count("C06.b-balanced-counts-what-is-processed", 1)
     ctx.require_count("C06.c-one-enumeration", 6)
